@@ -742,7 +742,10 @@ def formatting_case(tier, seed):
   one = head + "f(r, A, rho, D) = A*exp(-r/rho) + D*(exp(-2*(r-2)) - 2*exp(-(r-2)))\n"
   wrapped = [head + "f(r, A, rho, D) = A*exp(-r/rho)   // repulsion\n      + D*(exp(-2*(r-2))          # first Morse term\n      - 2*exp(-(r-2)))\n",
              head + "f(r, A, rho, D) =\n   A*exp(-r/rho)\n   + D*(exp(-2*(r-2)) - 2*exp(-(r-2)))   // Morse\n",
-             head + "f(r, A, rho, D) : A*exp(-r/rho) // repulsion\n\t+ D*(exp(-2*(r-2)) - 2*exp(-(r-2)))\n"]
+             head + "f(r, A, rho, D) : A*exp(-r/rho) // repulsion\n\t+ D*(exp(-2*(r-2)) - 2*exp(-(r-2)))\n",
+             # blanks between a function name and its bracket (custom form, as.* form, exprtk built-in)
+             head + "inner(r, A, rho) = A*exp (-r/rho)\nf(r, A, rho, D) = inner (r, A, rho) + D*as.constant (r, 1.0)*(exp(-2*(r-2)) - 2*exp (-(r-2)))\n",
+             head + "inner(r, A, rho) = A*exp(-r/rho)\nf(r, A, rho, D) = inner\n   (r, A, rho) + D*(exp(-2*(r-2)) - 2*exp(-(r-2)))\n"]
   logging.disable(logging.CRITICAL)
   try:
     ref = Configuration().read(io.StringIO(one)).potentials[0]
